@@ -1142,6 +1142,130 @@ def run_doctests_with_contracts(cid):
     return rec, None
 
 
+_ALT_CACHE = {}
+
+
+def alt_spellings(name, limit=40):
+    """Other spellings of corpus numbers that the module itself produces and accepts: results of format() under
+    every documented option value and of the module's own one-argument string functions (to_*, convert, compact)
+    that validate() accepts.  They reach representations the doctests never spell out (a decimal MEID, a regional
+    Steuernummer, an ISBN-10 of an ISBN-13)."""
+    if name in _ALT_CACHE:
+        return _ALT_CACHE[name][:limit]
+    mod = get_module(name)
+    nums = corpus(name)
+    nums = nums[:60]
+    out = []
+    fns = []
+    if hasattr(mod, 'format'):
+        fns.append((mod.format, {}))
+        for o in option_values(name, mod.format):
+            fns.append((mod.format, o))
+    for fname in sorted(vars(mod)):
+        f = getattr(mod, fname)
+        if fname.startswith('_') or not inspect.isfunction(f) or getattr(f, '__module__', None) != mod.__name__:
+            continue
+        if fname.startswith('to_') or fname in ('convert', 'compact'):
+            fns.append((f, {}))
+    for v in nums:
+        for f, o in fns:
+            try:
+                r = f(v, **o)
+            except Exception:  # noqa: B902
+                continue
+            if not isinstance(r, str) or not r or r == v or r in out or len(r) > 60:
+                continue
+            try:
+                ok = mod.is_valid(r) is True
+            except Exception:  # noqa: B902
+                ok = False
+            if ok:
+                out.append(r)
+        if len(out) >= 400:
+            break
+    # keep a spread over shapes first
+    seen = {}
+    first, rest = [], []
+    for r in out:
+        shape = (len(r), r.isdigit(), sum(ch.isalpha() for ch in r) > 0)
+        if seen.get(shape, 0) < 2:
+            seen[shape] = seen.get(shape, 0) + 1
+            first.append(r)
+        else:
+            rest.append(r)
+    _ALT_CACHE[name] = first + rest
+    return _ALT_CACHE[name][:limit]
+
+
+_POW2 = [str(2 ** k + d) for k in (8, 16, 24, 31, 32) for d in (-1, 0, 1)]
+
+
+def synth_field_extremes(name, rng, k=2, raw=False, cap=1500):
+    """Numbers whose fields hold extreme values: the decimal spelling of 2**k - 1, 2**k, 2**k + 1 (k = 8, 16, 24,
+    31, 32) and runs of the largest symbol (9 / F / Z) or of zeros, written into every window of a known-valid number
+    (both its compact and its canonical form).  raw=True returns every candidate (whether it is valid is for the
+    library to say) plus the repaired ones; raw=False only those the library accepts, check characters repaired."""
+    mod = get_module(name)
+    bases = []
+    shapes = {}
+    allnums = corpus(name)
+    if len(allnums) > 400:
+        allnums = rng.sample(allnums, 400)
+    for v in allnums + alt_spellings(name):
+        for f in (getattr(mod, 'compact', None), mod.validate, lambda t: ''.join(ch for ch in t if ch.isalnum())):
+            if f is None:
+                continue
+            try:
+                c = f(v)
+            except Exception:  # noqa: B902
+                continue
+            if not isinstance(c, str) or not 4 <= len(c) <= 40 or c in bases:
+                continue
+            shape = (len(c), c.isdigit(), c[:2].isalpha())      # one or two bases per spelling (length, digits-only, prefix)
+            if shapes.get(shape, 0) >= k or len(bases) >= 4 * k:
+                continue
+            shapes[shape] = shapes.get(shape, 0) + 1
+            bases.append(c)
+    cands = []
+    for c in bases:
+        n = len(c)
+        for const in _POW2:
+            w = len(const)
+            for pos in range(0, n - w + 1):
+                if c[pos:pos + w].isdigit():
+                    cands.append(c[:pos] + const + c[pos + w:])
+        fills = '90' + ('F' if any(ch in 'ABCDEFabcdef' for ch in c) else '') + ('Z' if any(ch.isalpha() for ch in c) else '')
+        for w in range(3, 9):
+            for pos in range(0, n - w + 1):
+                if c[pos:pos + w].isalnum():
+                    for f in fills:
+                        if f in '90' and not c[pos:pos + w].isdigit():
+                            continue
+                        cands.append(c[:pos] + f * w + c[pos + w:])
+    cands = list(dict.fromkeys(cands))
+    pow2 = [x for x in cands if any(c2 in x for c2 in _POW2)]       # always kept: they are few and exact
+    ps = set(pow2)
+    fills = [x for x in cands if x not in ps]
+    if len(fills) > cap:
+        fills = rng.sample(fills, cap)
+    cands = pow2 + fills
+    out = []
+    for cand in cands:
+        try:
+            ok = mod.is_valid(cand) is True
+        except Exception:  # noqa: B902
+            ok = False
+        if ok:
+            out.append(cand)
+            continue
+        if raw:
+            out.append(cand)
+        fixed = _repair(mod, cand) if len(out) < 3 * cap else None
+        if fixed is not None:
+            out.append(fixed)
+    return list(dict.fromkeys(out))
+
+
 def synth_boundaries(name, rng, k=3):
     """Valid numbers with runs of 9s / 0s after each possible leading digit (range boundaries such as ...099,
     ...3999, ...69999 in hard-coded or registry range tables), check characters repaired through is_valid()."""
